@@ -18,6 +18,12 @@ CLAIMED = {
    text="Proof: Gc/Model.v renders src/gc.rs operation by operation (alloc with collect-before-allocate, clone/drop with the count-reached-zero branch, guard/unguard with swap_remove, iterative mark, two-pass sweep, pool reuse, heap drop). Proved for every history, unbounded: the structural invariant (all indices in range, free list = pooled set, no duplicates: c13_structural_invariant), mark computes exactly reachability from live guards (c13_mark_is_reachability), a collection keeps exactly the reachable objects with contents and resets/pools the rest (c13_collect_exact, c13_live_objects_count), no other operation changes a live object it does not write unless Gc::drop's zero branch fires (c13_frame). The two known findings are refuted by kernel-evaluated witnesses. Partial: 'the zero branch never fires on histories without stale handles' is stated, not proved; it is checked on every generated history via the model's ghost counter.",
    note="Trusted: Coq kernel + vm_compute; ExtrOcamlBasic extraction + OCaml driver; Rust harness with the {value, refs} payload; the abstract-heap oracle in lib/c13.py. Marking uses explicit fuel (out-of-fuel excluded by the theorem statement and reported as a framework error by the correspondence). Chunk/bitmap addressing is abstracted to a flat slot index; actual addresses and unsafe pointer validity are not modelled (dereference after heap drop is predicted, not executed).",
    design_ref="DESIGN.md §5 C13"),
+ "C10": dict(
+   engine="Regs",
+   technique="Coq proof (allocator no-alias invariant over all disciplined op sequences; size-independence of register windows for every n) + correspondence: real RegisterAllocator vs extracted model, real compiler windows vs model, self-checking sized programs",
+   text="Proof: Regs/Alloc.v models RegisterAllocator (alloc/free/reserve_range/save/restore over u8) and the register window of sized constructs. Proved unbounded: on every disciplined operation sequence whatever is handed out is distinct, not in use and below max_used <= 255 (c10_alloc_no_alias); for EVERY size n a window is refused with a limit error or consists of n fresh consecutive registers, never a panic or a wrapped index (c10_window_size_independent); the pre-fix narrowing is refuted by witness (n = 256) and the cumulative limit (known finding F2) by witness. Tie on every run: random allocator histories against the real allocator, the real compiler's CreateArray/Call/Construct/TemplateConcat/TaggedTemplate windows against the model for dense sizes x contexts, and self-checking programs of 12 families (incl. parameters, object literals, switch, statements, constants, jumps) against closed forms in a worker process.",
+   note="Trusted: Coq kernel; extraction + OCaml driver; Rust harness; Python generators/closed forms. Only the window pattern is modelled; the other families are tied by execution only. Known findings F2 (registers never released => cumulative limit) and F3 (constant pool cumulative) are reported as KNOWN-FINDING; release-profile wrap is modelled but only the debug harness runs in the quick tier.",
+   design_ref="DESIGN.md §5 C10"),
 }
 
 NOT_YET = "not claimed yet in this revision: its model/theorem pair is not built; see DESIGN.md §5 and §8 (build order)"
